@@ -10,6 +10,7 @@ import (
 	"path/filepath"
 	"sort"
 	"strings"
+	"time"
 
 	"verifharness/appdrv"
 )
@@ -43,12 +44,14 @@ func replayVariant(file, out, tmp string) error {
 	sink := appdrv.NewSink(f)
 	rootA, _ := os.MkdirTemp(tmp, "repA-")
 	defer os.RemoveAll(rootA)
+	startA := time.Now()
 	a, _, err := appdrv.RunOutputs(vf.Base, "A", rootA, true)
 	if err != nil {
 		return err
 	}
 	var b []*appdrv.Output
 	if vf.How == "process" {
+		laterSecond(startA)
 		scfile := filepath.Join(rootA, "variant-scenario.json")
 		bz, _ := json.Marshal(vf.Variant)
 		if err := os.WriteFile(scfile, bz, 0o644); err != nil {
@@ -76,6 +79,13 @@ func replayVariant(file, out, tmp string) error {
 	sink.Flush()
 	fmt.Printf("{\"traces\":1,\"events\":%d,\"pairs\":%d,\"scenarios\":1}\n", sink.N, pairs)
 	return nil
+}
+
+// laterSecond waits until the wall clock is at least 1.1 s past t: two replicas never start within the same second.
+func laterSecond(t time.Time) {
+	if d := 1100*time.Millisecond - time.Since(t); d > 0 {
+		time.Sleep(d)
+	}
 }
 
 func init() {
@@ -139,11 +149,13 @@ func init() {
 			rootA, _ := os.MkdirTemp(*tmp, "repA-")
 			switch *mode {
 			case "det":
+				startA := time.Now()
 				a, _, err := appdrv.RunOutputs(sc, "A", rootA, true)
 				if err != nil {
 					return err
 				}
-				// replica B: another OS process, another directory, started later
+				// replica B: another OS process, another directory, started later (in another second of the wall clock)
+				laterSecond(startA)
 				bfile := filepath.Join(rootA, "b.json")
 				cmd := exec.Command(os.Args[0], "outputs", "-scenario", file, "-name", "B", "-tmp", *tmp, "-out", bfile)
 				if o, err := cmd.CombinedOutput(); err != nil {
